@@ -145,6 +145,9 @@ func (m *MergeExp) filter(t Type, lookup *TypeLookup) (Exp, error) {
 			}
 		}
 		innerType = t.Elem
+		if t.Dim > 1 {
+			innerType = lookup.GetArray(t.Elem, t.Dim-1)
+		}
 	case *TypedMapType:
 		if m.MergeOver.CallMode() == ModeArrayCall {
 			return m, &IncompatibleTypeError{
